@@ -538,6 +538,12 @@ func genC07(r *hlib.Rng, n int) In {
 				if r.Intn(4) == 0 { // context cancelled while that statement runs, then (as in production) a restart
 					fo.Fault.Cancel = true
 				}
+				if !fo.Fault.Cancel && (len(in.Ops)+j)%2 == 1 {
+					// the failing statement takes the whole transaction with it (SQLite rolls back on its own: a full disk, an I/O error,
+					// a busy database at a bad moment do that): db.Tx.Rollback then fails and the rollback callbacks are NOT run, so the
+					// tree's in-memory frontier stays advanced; the driver retries on the same instance. No random draw is added.
+					fo.Fault.RB = true
+				}
 				in.Ops = append(in.Ops, fo)
 				if r.Intn(5) == 0 {
 					in.Ops = append(in.Ops, Op{K: "restart"})
